@@ -110,6 +110,21 @@ func (b *builder) get(race bool, toolchain string) (string, error) {
 	cmd := exec.Command(gobin, args...)
 	cmd.Dir = filepath.Join(verifRoot, "harness")
 	cmd.Env = goEnv()
+	if os.Getenv("VERIF_COVER") != "" {
+		// Reach measurement (tools/coverage.sh): statement coverage of the library under the
+		// monitors. `-coverpkg` instruments nothing of a module that is only `replace`d in, so
+		// the worker is built in workspace mode, where the library is a main module as well.
+		repo := "/repo"
+		if gm, err := os.ReadFile(filepath.Join(verifRoot, "harness", "go.mod")); err == nil {
+			if m := regexp.MustCompile(`(?m)=>\s*(/\S+)`).FindSubmatch(gm); m != nil {
+				repo = string(m[1])
+			}
+		}
+		work := filepath.Join(b.dir, "go.work")
+		_ = os.WriteFile(work, []byte("go 1.23\n\nuse "+filepath.Join(verifRoot, "harness")+"\nuse "+repo+"\n"), 0o644)
+		cmd.Args = append(cmd.Args[:len(cmd.Args)-1], "-cover", "./cmd/vworker")
+		cmd.Env = append(cmd.Env, "GOWORK="+work, "GOFLAGS=")
+	}
 	var buf bytes.Buffer
 	cmd.Stdout, cmd.Stderr = &buf, &buf
 	if err := cmd.Run(); err != nil {
@@ -143,6 +158,9 @@ func workerEnv() []string {
 		env = append(env, e)
 	}
 	env = append(env, "LC_ALL=C", "LANG=C", "RUNEWIDTH_EASTASIAN=0", "GOTRACEBACK=all")
+	if d := os.Getenv("VERIF_COVER"); d != "" {
+		env = append(env, "GOCOVERDIR="+d)
+	}
 	return env
 }
 
